@@ -106,39 +106,31 @@ theorem encode_fibs_facts (d : Nat) (fs : List Fmt) (tsh : List Nat) (ish : Opti
     ∀ F ∈ (encode d fs tsh ish t).fibs.flatten, FibFacts F :=
   encF_fibs_facts d fs tsh ish 0 (List.replicate (d + 1) (0, 0)) t hfs hwf hin
 
+/-- `occupancy_so_far` of every non-leaf C / B fiber of an encoding is the position, in the next
+    rank, of the first fiber it created (the rank counters stay consistent through the DFS) -/
+theorem encode_fibs_osf (d : Nat) (fs : List Fmt) (tsh : List Nat) (ish : Option (List Nat))
+    (t : List (Int × Tree Int Int d)) (hfs : fs.length = d + 1) :
+    ∀ F ∈ (encode d fs tsh ish t).fibs.flatten, F.fmt ≠ .U → F.next ≠ none → F.osf = F.kid0 :=
+  (cd_encF_cnt d fs tsh ish 0 (List.replicate (d + 1) (0, 0)) t hfs (cd_CntInv_replicate fs (d + 1))).2.2
+
 /-- Scanning an encoded fiber through its own handle interface (`setupSlice(0)`, `nextInSlice`
-    until None, `handleToCoord`, `handleToPayload`) yields exactly the fiber's elements in order:
-    the k-th coordinate of the source fiber's laid-out elements (all positions for U, the
-    non-empty elements for C and B) with payload handle k, i.e. — resolved — its k-th leaf value
-    resp. its k-th child fiber.  PARTIAL: `hcu` excludes coordinate-list fibers above an
-    uncompressed rank (finding `scan:C-over-U-payload-handle`). -/
-theorem scan_eq_elems_partial (d : Nat) (fs : List Fmt) (tsh : List Nat) (ish : Option (List Nat))
+    until None, `handleToCoord`, `handleToPayload`) yields exactly the fiber's elements in order,
+    for every fiber of every encoding: the k-th coordinate of the source fiber's laid-out
+    elements (all positions for U, the non-empty elements for C and B) with payload handle
+    `payBase + k` (k for fibers that store payloads; `occupancy_so_far + k`, the position of the
+    k-th child in the next rank, for C above U), i.e. — resolved — its k-th leaf value resp. its
+    k-th child fiber. -/
+theorem scan_eq_elems (d : Nat) (fs : List Fmt) (tsh : List Nat) (ish : Option (List Nat))
     (t : List (Int × Tree Int Int d))
     (hfs : fs.length = d + 1) (hwf : wfB (κ := Int) (ν := Int) (d + 1) t = true)
     (hin : inEff (d + 1) fs tsh ish t = true)
-    (F : EFib) (hF : F ∈ (encode d fs tsh ish t).fibs.flatten)
-    (hcu : ¬ (F.fmt = .C ∧ F.next = some .U)) :
+    (F : EFib) (hF : F ∈ (encode d fs tsh ish t).fibs.flatten) :
     F.layoutCoords = F.ecoords ∧ F.scan = F.scanSpec ∧ F.scanElems = F.elemsSpec := by
   have h := encode_fibs_facts d fs tsh ish t hfs hwf hin F hF
-  exact ⟨layoutCoords_facts F h, scan_facts F h hcu, scanElems_facts F h hcu⟩
-
-/-- what the excluded class does: a coordinate-list fiber above an uncompressed rank delivers the
-    right coordinates but the same payload (`occupancy_so_far`, the next-rank index of its first
-    child) for every element -/
-theorem scan_C_over_U (d : Nat) (fs : List Fmt) (tsh : List Nat) (ish : Option (List Nat))
-    (t : List (Int × Tree Int Int d))
-    (hfs : fs.length = d + 1) (hwf : wfB (κ := Int) (ν := Int) (d + 1) t = true)
-    (hin : inEff (d + 1) fs tsh ish t = true)
-    (F : EFib) (hF : F ∈ (encode d fs tsh ish t).fibs.flatten) (hC : F.fmt = .C) (hU : F.next = some .U) :
-    F.scan = F.ecoords.map (fun c => (some c, some F.osf)) :=
-  scan_CU_facts F (encode_fibs_facts d fs tsh ish t hfs hwf hin F hF) hC hU
-
-/-- … so with two elements the scan is not the fiber's element list: descriptor (C, U) on the
-    witness tensor, the top fiber designates next-rank fiber 0 for both coordinates -/
-theorem scan_C_over_U_counterexample :
-    ∃ F ∈ (encode 1 [.C, .U] [2, 2] none witnessT).fibs.flatten, F.scanElems ≠ F.elemsSpec ∧
-      F.scanElems = [(some 0, some 0), (some 1, some 0)] ∧ F.elemsSpec = [(some 0, some 0), (some 1, some 1)] := by
-  refine ⟨((encode 1 [.C, .U] [2, 2] none witnessT).fibs.flatten).headD default, by decide, by decide, by decide, by decide⟩
+  have ho := encode_fibs_osf d fs tsh ish t hfs F hF
+  refine ⟨layoutCoords_facts F h, scan_facts F h, scanElems_facts F h ?_⟩
+  intro hC hU
+  exact ho (by rw [hC]; decide) (by rw [hU]; exact Option.some_ne_none _)
 
 /-- Coordinate lookup in an encoded coordinate-list fiber (`coordToHandle`: two short paths and
     a ceil-mid binary search) returns the handle of the first stored coordinate not below the
@@ -155,40 +147,23 @@ theorem coordToHandle_lowerBound (d : Nat) (fs : List Fmt) (tsh : List Nat) (ish
 theorem coordToHandle_search (cs : List Int) (hinc : cs.Pairwise (· < ·)) (q : Int) :
     c2hC cs q = lowerHandle cs q := c2hC_lowerHandle cs hinc q
 
-/-- `getSize` of every encoded fiber: it raises exactly in the class `sizeAsserts` (a fiber
-    without elements that is U, or C above an explicit rank) and otherwise reports the number of
-    words the layout stores -/
-theorem getSize_eq (d : Nat) (fs : List Fmt) (tsh : List Nat) (ish : Option (List Nat))
+/-- Every encoded fiber reports a size equal to the number of words its layout stores
+    (coordinates or mask words, occupancy entries, payload entries) — `getSize` never raises on
+    a fiber of an encoding, empty fibers report 0 words. -/
+theorem size_eq_words (d : Nat) (fs : List Fmt) (tsh : List Nat) (ish : Option (List Nat))
     (t : List (Int × Tree Int Int d))
     (hfs : fs.length = d + 1) (hwf : wfB (κ := Int) (ν := Int) (d + 1) t = true)
     (hin : inEff (d + 1) fs tsh ish t = true)
     (F : EFib) (hF : F ∈ (encode d fs tsh ish t).fibs.flatten) :
-    F.getSize = if F.sizeAsserts then none else some F.words :=
+    F.getSize = some F.words :=
   getSize_facts F (encode_fibs_facts d fs tsh ish t hfs hwf hin F hF)
-
-/-- PARTIAL form of the size clause: outside the asserting class the reported size is the number
-    of words of the layout (finding `size:assert-on-empty-fiber` is the excluded class). -/
-theorem size_eq_words_partial (d : Nat) (fs : List Fmt) (tsh : List Nat) (ish : Option (List Nat))
-    (t : List (Int × Tree Int Int d))
-    (hfs : fs.length = d + 1) (hwf : wfB (κ := Int) (ν := Int) (d + 1) t = true)
-    (hin : inEff (d + 1) fs tsh ish t = true)
-    (F : EFib) (hF : F ∈ (encode d fs tsh ish t).fibs.flatten) (hna : F.sizeAsserts = false) :
-    F.getSize = some F.words := by
-  rw [getSize_eq d fs tsh ish t hfs hwf hin F hF, hna]; rfl
-
-/-- the excluded class is real: the empty 1-rank tensor in format U -/
-theorem size_assert_counterexample :
-    ∃ F ∈ (encode 0 [.U] [0] none ([] : List (Int × Tree Int Int 0))).fibs.flatten,
-      F.getSize = none ∧ F.words = 0 := by
-  refine ⟨((encode 0 [.U] [0] none ([] : List (Int × Tree Int Int 0))).fibs.flatten).headD default,
-    by decide, by decide, by decide⟩
 
 -- non-vacuity of the per-fiber theorems: sampleT under (C, B, U) has 1 + 2 + 3 fibers of all three formats
 example : ((encode 2 [.C, .B, .U] [3, 3, 3] (some [4, 3, 5]) sampleT).fibs.flatten.map (·.fmt)) =
     [.C, .B, .B, .U, .U] := by decide
 
-example := scan_eq_elems_partial 2 [.C, .B, .U] [3, 3, 3] (some [4, 3, 5]) sampleT (by decide) (by decide) (by decide)
-  (((encode 2 [.C, .B, .U] [3, 3, 3] (some [4, 3, 5]) sampleT).fibs.flatten).headD default) (by decide) (by decide)
+example := scan_eq_elems 2 [.C, .B, .U] [3, 3, 3] (some [4, 3, 5]) sampleT (by decide) (by decide) (by decide)
+  (((encode 2 [.C, .B, .U] [3, 3, 3] (some [4, 3, 5]) sampleT).fibs.flatten).headD default) (by decide)
 
 example : (((encode 2 [.C, .B, .U] [3, 3, 3] (some [4, 3, 5]) sampleT).fibs.flatten).headD default).scanElems
     = [(some 0, some 0), (some 2, some 1)] := by decide
@@ -199,14 +174,23 @@ example := coordToHandle_lowerBound 2 [.C, .B, .U] [3, 3, 3] none sampleT (by de
 example := coordToHandle_search [1, 4, 6, 9, 12] (by decide) 7
 example : lowerHandle [1, 4, 6, 9, 12] 7 = some 3 := by decide
 
-example := size_eq_words_partial 2 [.C, .B, .U] [3, 3, 3] none sampleT (by decide) (by decide) (by decide)
-  (((encode 2 [.C, .B, .U] [3, 3, 3] none sampleT).fibs.flatten).headD default) (by decide) (by decide)
-
-example := scan_C_over_U 1 [.C, .U] [2, 2] none witnessT (by decide) (by decide) (by decide)
-  (((encode 1 [.C, .U] [2, 2] none witnessT).fibs.flatten).headD default) (by decide) (by decide) (by decide)
-
-example := getSize_eq 2 [.C, .B, .U] [3, 3, 3] none sampleT (by decide) (by decide) (by decide)
+example := size_eq_words 2 [.C, .B, .U] [3, 3, 3] none sampleT (by decide) (by decide) (by decide)
   (((encode 2 [.C, .B, .U] [3, 3, 3] none sampleT).fibs.flatten).headD default) (by decide)
+
+-- the former witnesses: C above U with two elements now designates fiber 0 and fiber 1 …
+example : (((encode 1 [.C, .U] [2, 2] none witnessT).fibs.flatten).headD default).scanElems
+    = [(some 0, some 0), (some 1, some 1)] := by decide
+
+example := scan_eq_elems 1 [.C, .U] [2, 2] none witnessT (by decide) (by decide) (by decide)
+  (((encode 1 [.C, .U] [2, 2] none witnessT).fibs.flatten).headD default) (by decide)
+
+-- … a second C fiber above U starts at its own occupancy_so_far (descriptor (U, C, U))
+example : (((encode 2 [.U, .C, .U] [3, 3, 3] none sampleT).fibs.flatten).map (fun F => (F.fmt, F.osf, F.kid0))) =
+    [(.U, 0, 0), (.C, 0, 0), (.C, 1, 1), (.C, 1, 1), (.U, 0, 0), (.U, 0, 0)] := by decide
+
+-- … and the empty tensor reports 0 words (U of shape 0; C above C)
+example : ((encode 0 [.U] [0] none ([] : List (Int × Tree Int Int 0))).fibs.flatten.map (·.getSize)) = [some 0] := by decide
+example : ((encode 1 [.C, .C] [0, 0] none ([] : List (Int × Tree Int Int 1))).fibs.flatten.map (·.getSize)) = [some 0] := by decide
 
 example : (((encode 2 [.C, .B, .U] [3, 3, 3] none sampleT).fibs.flatten).map (·.words)) = [6, 1, 1, 3, 3] := by decide
 
